@@ -340,7 +340,7 @@ func init() {
 			}
 			if sc.Expect.K == "err" || reached {
 				c.mu.Lock()
-				c.shapes[sc.Shape]++
+				c.shapes[shapeKey(sc.Shape)] = struct{}{}
 				c.mu.Unlock()
 				c.Sample(map[string]interface{}{"source": src, "fault_reached": reached, "expected": sc.Expect.K, "observed": v.Obs})
 			}
